@@ -1,5 +1,6 @@
 """C19: each task sees its own namespace settings; session edits persist safely."""
 import itertools
+import json
 import time
 import os
 import random
@@ -183,6 +184,12 @@ class C19(Prop):
             "path, the root collection, the defaults), tasks of other namespaces run whose settings lack the key (direct requests, "
             "default shortcuts, as post- or pre-task, root tasks), then the first namespace again (a sibling task, the same task "
             "with dedupe off or in a second execute()), optionally writing the key again and going round once more; "
+            "+ the shared-group family (a systematic block in every run, 10% of the random cases): ONE collection object "
+            "added to two or three parents with different settings (siblings, root and sub, a group holding the collection, "
+            "different depths; a random sub-collection of a random tree added to a second parent), a setting only one parent "
+            "has (leaf, top-level, section; optionally named by the environment), tasks requested through both mount points "
+            "in both orders, the same task twice (dedupe off / two execute()), there and back, default shortcuts, and "
+            "single-path sessions after plain lookups (configuration / task_with_config / []) through the other mount; "
             "observed: deep view on entry and on exit of every body; non-trivial = "
             ">=2 bodies executed, from >=2 different collections, and >=1 successful edit before the last body")
     trusted_base = [
@@ -193,7 +200,8 @@ class C19(Prop):
         "CPython 3.12 executing /repo; os.environ swapped by the harness between bodies",
     ]
     assumptions = [
-        "tasks take no arguments; each task is bound in exactly one collection (its namespace path is unique)",
+        "tasks take no arguments; a task is bound in one collection -- that collection object (or a group holding "
+        "it) may be mounted under several parents, the namespace path of a call is then the one its name goes through",
         "bodies edit settings with leaf values only (dict-valued writes: C06, F-C06a) and navigate from the root",
         "environment values are convertible; no two settings of the LEVELS (defaults, overrides, collection "
         "configurations) share a variable name (C16's subject: the load is documented to refuse) -- bodies do "
@@ -700,6 +708,266 @@ class C19(Prop):
             return out
         return case
 
+    # ---- one collection object under several parents ---------------------------------
+    # A reusable task group (ONE Collection object) is added to several parents whose settings
+    # differ; tasks are requested through the different mount points.  Looking a task up must not
+    # leave anything behind in the tree: whichever paths were looked up before (in the same
+    # execute() -- every requested name is looked up before the first body runs --, in an earlier
+    # execute(), or before the session), a task called through one mount point sees the settings of
+    # THAT path only.
+    SHARED_MOUNTS = ("siblings", "siblings", "rootsub", "deep", "uneven", "three")
+    SHARED_TRIPS = ("ab", "ba", "same", "split", "split2", "back", "away", "shortcut", "warm", "warm2")
+    SHARED_VICTIMS = ("leaf", "top", "section")
+
+    def _shared_case(self, rng, mount=None, trip=None, victim=None, whose=None):
+        mount = mount or rng.choice(self.SHARED_MOUNTS)
+        trip = trip or rng.choice(self.SHARED_TRIPS)
+        victim = victim or rng.choice(self.SHARED_VICTIMS)
+        whose = whose if whose is not None else rng.randrange(2)     # which mount's parent alone has the victim
+        sch = cc.schema(rng, depth=rng.choice([2, 3]), width=3, kinds="nbis", p_section=0.5)
+        free = [k for k in cc.SAFE_KEYS if k not in sch]
+        rng.shuffle(free)
+        if not any(isinstance(v, dict) for v in sch.values()):
+            sch[free.pop()] = {free.pop(): rng.choice("bis"), free.pop(): rng.choice("nbis")}
+        if all(isinstance(v, dict) for v in sch.values()):
+            sch[free.pop()] = rng.choice("bis")
+        paths = list(cc.schema_paths(sch))
+        if victim == "leaf":
+            cands = [q for q, sec in paths if not sec and len(q) >= 2]
+        elif victim == "top":
+            cands = [q for q, sec in paths if not sec and len(q) == 1]
+        else:
+            cands = [q for q, sec in paths if sec]
+        p = rng.choice(cands)
+        sub = cc.sch_kind(sch, p)
+        if isinstance(sub, dict):
+            val = gt.jsonable(cc.instance(rng, sub, p_keep=1.0, same_kind=1.0))
+        else:
+            val = gt.jsonable(gt.leaf(rng, sub))
+        inst = lambda keep: gt.jsonable(cc.instance(rng, sch, p_keep=keep, same_kind=1.0))
+        lv = {"R": inst(0.4), "P": inst(0.6), "S": inst(0.6), "T": inst(0.6), "Q": inst(0.4), "M": inst(0.5),
+              "DB": inst(0.5), "B": inst(0.5), "D": inst(0.5), "O": inst(0.2)}
+        sup = ("P", "S")[whose]
+        for k in lv:
+            lv[k] = _put_at(lv[k], p, val) if k == sup else _strip_at(lv[k], p)
+        if rng.random() < 0.3:
+            lv["DB"] = {}                    # the shared group has no settings of its own
+        roles = ["t0", "ta", "ta2", "tb"]
+        rng.shuffle(roles)
+        tid = dict((r, i) for i, r in enumerate(roles))
+        plain = [n for n in ns.TASK_NAMES if n.isalnum() and n.islower()]
+        tn = rng.sample(plain, 4)
+        cplain = [n for n in ns.COLL_NAMES if n.isalnum() and n.islower()]
+        cn = rng.sample(cplain + ["prod", "staging", "db", "ops"], 6)
+
+        def item(role, nm, default=None):
+            return {"task": {"id": tid[role], "name": nm, "aliases": [], "default": False},
+                    "bind": None, "aliases": [], "default": default}
+
+        def coll(nm, cfg, items, default=False, share=None, bind=None):
+            c = {"name": nm, "auto_dash": True, "config": cfg, "items": items}
+            if share is not None:
+                c["share"] = share
+            return {"coll": c, "bind": bind, "default": default}
+        mine = [item("ta", tn[1], True if (trip == "shortcut" or rng.random() < 0.5) else None), item("ta2", tn[2])]
+        rng.shuffle(mine)
+        db = lambda **kw: coll(cn[0], lv["DB"], mine, share="g", **kw)
+        dflt_sub = trip == "shortcut" or rng.random() < 0.3
+        if mount == "deep":
+            # the shared object is a group that itself holds the collection of the tasks
+            grp = lambda **kw: coll(cn[0], lv["M"], [coll(cn[5], lv["DB"], mine, default=dflt_sub)], share="g", **kw)
+            tops = [coll(cn[1], lv["P"], [grp(default=dflt_sub)]), coll(cn[2], lv["S"], [grp(default=dflt_sub)])]
+            via = [cn[1] + "." + cn[0] + "." + cn[5], cn[2] + "." + cn[0] + "." + cn[5]]
+            short = [cn[1], cn[2]] if dflt_sub else [via[0], via[1]]
+        elif mount == "rootsub":
+            # mounted at the root and below a parent (which alone has the victim)
+            tops = [db(), coll(cn[1], lv[sup], [db(default=dflt_sub)])]
+            via = [cn[1] + "." + cn[0], cn[0]]
+            short = [cn[1] if dflt_sub else via[0], via[1]]
+        elif mount == "uneven":
+            tops = [coll(cn[1], lv["P"], [coll(cn[4], lv["Q"], [db(default=dflt_sub)], default=dflt_sub)]),
+                    coll(cn[2], lv["S"], [db(default=dflt_sub)])]
+            via = [cn[1] + "." + cn[4] + "." + cn[0], cn[2] + "." + cn[0]]
+            short = [cn[1], cn[2]] if dflt_sub else list(via)
+        else:
+            tops = [coll(cn[1], lv["P"], [db(default=dflt_sub)]), coll(cn[2], lv["S"], [db(default=dflt_sub)])]
+            via = [cn[1] + "." + cn[0], cn[2] + "." + cn[0]]
+            short = [cn[1], cn[2]] if dflt_sub else list(via)
+            if mount == "three":
+                tops.append(coll(cn[4], lv["T"], [db()]))
+                via.append(cn[4] + "." + cn[0])
+                short.append(via[2])
+        tops.append(item("t0", tn[0], True if rng.random() < 0.4 else None))
+        tops.append(coll(cn[3], lv["B"], [item("tb", tn[3])]))
+        rng.shuffle(tops)
+        spec = {"name": None, "auto_dash": True, "config": lv["R"], "items": tops}
+        built, st = ns.build_and_dump(spec)
+        if built is None:
+            return None
+        # a, b: the two mount points used (the one whose parent has the victim first or second)
+        ia, ib = (0, 1) if rng.random() < 0.5 else (1, 0)
+        if len(via) > 2 and rng.random() < 0.5:
+            ib = 2
+        nm = lambda i, role: via[i] + "." + tn[{"ta": 1, "ta2": 2}[role]]
+        other = rng.choice([cn[3] + "." + tn[3], tn[0]])
+        dedupe, split, warm = True, 0, []
+        if trip == "ab":
+            reqs = [nm(ia, "ta"), nm(ib, "ta2")]
+        elif trip == "ba":
+            reqs = [nm(ib, "ta2"), nm(ia, "ta")]
+        elif trip == "same":
+            reqs, dedupe = [nm(ia, "ta"), nm(ib, "ta")], False
+        elif trip == "split":
+            reqs, split = [nm(ia, "ta"), nm(ib, "ta")], 1
+        elif trip == "split2":
+            reqs, split = [nm(ia, "ta"), other, nm(ib, "ta2")], rng.choice([1, 2])
+        elif trip == "back":
+            reqs, dedupe = [nm(ia, "ta"), nm(ib, "ta"), nm(ia, "ta")] + ([nm(ib, "ta2")] if rng.random() < 0.4 else []), False
+        elif trip == "away":
+            reqs = [nm(ia, "ta"), other, nm(ib, "ta2")]
+        elif trip == "shortcut":
+            reqs = [short[ia], nm(ib, "ta2")] if rng.random() < 0.5 else [nm(ib, "ta2"), short[ia]]
+        elif trip == "warm":
+            # a single-path session after lookups through the other mount point
+            warm = [[rng.choice(["config", "config", "twc"]), nm(ib, rng.choice(["ta", "ta2"]))]]
+            reqs = [nm(ia, "ta")] + ([other] if rng.random() < 0.4 else [])
+        else:
+            warm = [[rng.choice(["config", "twc", "getitem"]), nm(i, "ta2")] for i in (ib, ia, ib)]
+            reqs = [other, nm(ia, "ta"), nm(ia, "ta2")]
+        fl = rng.choice(["item", "item", "attr"])
+        bodies = {}
+        if rng.random() < 0.4:
+            bodies[str(tid["ta"])] = [self._safe_op(rng, sch)]
+        if rng.random() < 0.3:
+            bodies[str(tid["ta2"])] = [["get", fl, list(p[:-1]), p[-1]]]
+        elif rng.random() < 0.3:
+            bodies[str(tid["ta2"])] = [self._safe_op(rng, sch)]
+        if rng.random() < 0.2:
+            bodies[str(tid["tb"])] = [self._safe_op(rng, sch)]
+        bodies = dict((t, self._fix_ops(ops)) for t, ops in bodies.items())
+        overrides = lv["O"]
+        if not dedupe:
+            overrides = dict(overrides, tasks={"dedupe": False})
+        envs = [cc.env_for(rng, sch, p_set=rng.choice([0.0, 0.2, 0.5]), p_bad=0.0) for _ in range(rng.randint(1, 3))]
+        if not isinstance(val, dict) and not isinstance(val, (list, tuple)) and rng.random() < 0.4:
+            # the environment names the setting only ONE path knows
+            var = "INVOKE_" + "_".join(p).upper()
+            v = rng.choice(["0", "1", "5"]) if isinstance(val, int) and not isinstance(val, bool) else "1"
+            envs = [dict(e, **{var: v}) for e in envs]
+        case = {"script": spec, "hooks": {}, "bodies": bodies, "requests": reqs, "dedupe": dedupe,
+                "via_ctx": rng.random() < 0.5, "req_form": rng.choice(["str", "pair", "ctx", "ctx"]),
+                "init": {"defaults": lv["D"], "overrides": overrides}, "envs": envs}
+        if split:
+            case["split"] = split
+        if warm:
+            case["warm"] = warm
+        return case
+
+    def _shared_block(self, rng, reps=1):
+        """the systematic part: every itinerary x every way of mounting, the kind of setting only one
+        parent has and which parent has it rotating"""
+        k = rng.randrange(1000)
+        mounts = ("siblings", "rootsub", "deep", "uneven", "three")
+        for rep in range(reps):
+            for trip in self.SHARED_TRIPS:
+                for mount in mounts:
+                    k += 1
+                    case = self._shared_case(rng, mount, trip, self.SHARED_VICTIMS[k % 3], (k // 3) % 2)
+                    if case is not None:
+                        yield case
+
+    def _share_again(self, rng, case):
+        """over the random tree of the case: one of its sub-collections is ALSO added to another
+        collection of the tree (same object), and its tasks are requested through both mount points"""
+        spec = case["script"]
+        if shared_labels(spec):
+            return case
+        # candidates: (index path to a sub-collection item)
+        subs = []
+
+        def walk(sp, at):
+            for i, it in enumerate(sp.get("items", [])):
+                if "coll" in it and "module" not in it["coll"] and not it["coll"].get("plain_module"):
+                    subs.append(at + (i,))
+                    walk(it["coll"], at + (i,))
+        walk(spec, ())
+        rng.shuffle(subs)
+
+        def at_(sp, ix):
+            for i in ix:
+                sp = sp["items"][i]["coll"]
+            return sp
+
+        def put(sp, ix, f):
+            if not ix:
+                return f(sp)
+            items = list(sp["items"])
+            items[ix[0]] = dict(items[ix[0]], coll=put(items[ix[0]]["coll"], ix[1:], f))
+            return dict(sp, items=items)
+        for ix in subs:
+            grp = at_(spec, ix)
+            if not task_infos(grp):
+                continue
+            # a new parent: any collection that is not the group, not inside it, not its present parent
+            parents = [q for q in [()] + subs if q[:len(ix)] != ix and q != ix[:-1]]
+            if not parents:
+                continue
+            par = rng.choice(parents)
+            mark = dict(grp, share="g")
+            bind = rng.choice(["again", "mnt", "g2"])
+            sp2 = put(spec, ix, lambda _: mark)
+            sp2 = put(sp2, par, lambda c: dict(c, items=list(c["items"]) + [{"coll": mark, "bind": bind, "default": False}]))
+            built, st = ns.build_and_dump(sp2)
+            if built is None:
+                continue
+            d = st["ok"]
+            names = ns.resolvable_names(d)
+            ids_in = set(task_infos(grp))
+            by = {}
+            for nmx in names:
+                try:
+                    t = ns.task_id(built[nmx])
+                except Exception:
+                    continue
+                if t in ids_in:
+                    by.setdefault(t, []).append(nmx)
+            two = [t for t, l in by.items() if len(l) >= 2]
+            if not two:
+                continue
+            t1 = rng.choice(two)
+            t2 = rng.choice(two)
+            # two names of t1/t2 that go through different mount points: different first segments or lengths
+            n1 = rng.choice(by[t1])
+            rest = [x for x in by[t2] if (bind in x.split(".")) != (bind in n1.split("."))]
+            if not rest:
+                continue
+            n2 = rng.choice(rest)
+            out = dict(case, script=sp2, hooks={})
+            out.pop("split", None)
+            init = dict(case["init"])
+            dedupe = case["dedupe"]
+            r = rng.random()
+            if t1 == t2:
+                if r < 0.5:
+                    dedupe = True
+                    out["split"] = 1
+                else:
+                    dedupe = False
+            if r < 0.2 and t1 != t2:
+                out["warm"] = [["config", n2]]
+                reqs = [n1]
+            else:
+                reqs = [n1, n2] + ([n1] if (not dedupe and rng.random() < 0.4) else [])
+            if not dedupe:
+                init["overrides"] = dict(init["overrides"], tasks={"dedupe": False})
+            elif "tasks" in init["overrides"]:
+                init["overrides"] = dict((k, v) for k, v in init["overrides"].items() if k != "tasks")
+            keep = set(str(t) for t in (t1, t2))
+            bodies = dict((t, ops) for t, ops in case["bodies"].items() if t in keep)
+            out.update(requests=reqs, dedupe=dedupe, init=init, bodies=bodies)
+            return out
+        return case
+
     def _finish(self, rng, case):
         case = _convertible_env(case)
         if any(_dict_write(op) for ops in case["bodies"].values() for op in ops) and case["envs"] != [{}]:
@@ -713,8 +981,15 @@ class C19(Prop):
         # the systematic there-and-back sessions come first (every shape x every kind of victim)
         for case in self._back_block(rng, per_shape=2 if tier == "quick" else 12):
             yield self._finish(rng, case)
+        # ... then the systematic shared-group sessions (every itinerary x every way of mounting)
+        for case in self._shared_block(rng, reps=1 if tier == "quick" else 8):
+            yield self._finish(rng, case)
         for _ in range(n):
             r = rng.random()
+            if r >= 0.90:
+                case = (self._shared_case(rng) if r < 0.95 else None) or self._share_again(rng, self._gen(rng))
+                yield self._finish(rng, case)
+                continue
             if r < 0.10:
                 case = self._back_case(rng) or self._gen(rng)
                 yield self._finish(rng, case)
@@ -755,6 +1030,37 @@ class C19(Prop):
                 if not ed:
                     break
         yield from self._enumerate_back()
+        yield from self._enumerate_shared()
+
+    def _enumerate_shared(self):
+        """one group under two parents, small scope: root{k:{x:0}} > t0 ; p{k:{p:1}, only:5} > g ; s{k:{s:2}} > g ;
+        g = db{k:{g:3}} > t1 (default), t2 -- every ordered pair of names through the two mount points (and the
+        default shortcut), in one execute() / two / with dedupe off / after lookups only, one edit, two environments"""
+        t = lambda i, nm: {"id": i, "name": nm, "aliases": [], "default": False}
+        it = lambda task, dflt=None: {"task": task, "bind": None, "aliases": [], "default": dflt}
+        grp = {"coll": {"name": "db", "auto_dash": True, "config": {"k": {"g": 3}}, "share": "g",
+                        "items": [it(t(1, "t1"), True), it(t(2, "t2"))]}, "bind": None, "default": False}
+        sub = lambda nm, cfg: {"coll": {"name": nm, "auto_dash": True, "config": cfg, "items": [grp]},
+                               "bind": None, "default": False}
+        spec = {"name": None, "auto_dash": True, "config": {"k": {"x": 0}},
+                "items": [it(t(0, "t0"), True), sub("p", {"k": {"p": 1}, "only": 5}), sub("s", {"k": {"s": 2}})]}
+        names = {"p": ["p.db.t1", "p.db.t2", "p.db"], "s": ["s.db.t1", "s.db.t2", "s.db"]}
+        edits = [[], [["set", "item", ["k"], "p", 9]], [["del", "item", [], "only"]]]
+        for a, b in (("p", "s"), ("s", "p")):
+            for n1, n2 in itertools.product(names[a], names[b]):
+                same = n1.split(".")[-1].replace("db", "t1") == n2.split(".")[-1].replace("db", "t1")
+                for ed, envs in itertools.product(edits, ([{}], [{}, {"INVOKE_K_P": "7", "INVOKE_ONLY": "9"}])):
+                    base = {"script": spec, "hooks": {}, "bodies": {"1": ed} if ed else {}, "dedupe": True,
+                            "init": {"defaults": {"k": {"d": 0}}, "overrides": {}}, "envs": envs}
+                    off = dict(base, dedupe=False, init={"defaults": {"k": {"d": 0}}, "overrides": {"tasks": {"dedupe": False}}})
+                    if not same:
+                        yield dict(base, requests=[n1, n2])
+                        yield dict(base, requests=[n1, "t0", n2], split=2)
+                    else:
+                        yield dict(off, requests=[n1, n2])
+                        yield dict(base, requests=[n1, n2], split=1)
+                    yield dict(off, requests=[n1, n2, n1])
+                    yield dict(base, requests=[n1], warm=[["config", n2]])
 
     def _enumerate_back(self):
         """there and back, small scope: root{k:{x:0,top:1}} > t0 ; a{k:{x:1,a:1}, own:{q:1,r:2}, solo:5} > t1, t3 ;
@@ -823,7 +1129,7 @@ class C19(Prop):
             set_env(state["k"])
             return None
 
-        b = ns.Builder(on_call=on_call, sigs=_NoArgs())
+        b = _SharingBuilder(on_call=on_call, sigs=_NoArgs())
         try:
             # task objects, highest id first, so that hooks can refer to them
             for tid in sorted(infos, reverse=True):
@@ -842,6 +1148,18 @@ class C19(Prop):
                 obs["req_tids"] = None
                 obs["bad_request"] = type(e).__name__
                 return obs
+            # lookups made before the session (an earlier session on the same tree, a listing, a
+            # completion script): they answer questions and change nothing
+            for how, nm in case.get("warm") or []:
+                try:
+                    if how == "config":
+                        coll.configuration(nm)
+                    elif how == "twc":
+                        coll.task_with_config(nm)
+                    else:
+                        coll[nm]
+                except Exception as e:  # noqa: a lookup that fails is not this property's subject
+                    obs.setdefault("warm_errs", []).append(type(e).__name__)
             try:
                 cfg = sess.construct()
             except Exception as e:  # noqa
@@ -928,6 +1246,11 @@ class C19(Prop):
         recs = obs["ok"]["records"]
         if len(recs) < 2:
             return False
+        if shared_labels(case["script"]):
+            # a group mounted twice: the session (or the lookups before it) went through two mount points
+            nms = list(obs.get("req_names") or case["requests"]) + [w[1] for w in case.get("warm") or []]
+            if len(set(n.rsplit(".", 1)[0] for n in nms if "." in n)) >= 2:
+                return True
         hm = homes(obs["state"]["ok"])
         places = set(len(hm.get(r[0], ())) * 100 + id(hm.get(r[0], ((),))[-1]) % 97 for r in recs)
         edited = any(("err" not in o) and op[0] in ("set", "del", "pop", "update", "setdefault", "clear", "popitem")
@@ -947,6 +1270,8 @@ class C19(Prop):
             kinds.append("hooks" if case["requests"] else "default")
         if self._there_and_back(case, obs):
             kinds.append("back")
+        if shared_labels(case["script"]):
+            kinds.append("shared-warm" if case.get("warm") else "shared")
         return ":".join(kinds)
 
     def _there_and_back(self, case, obs):
@@ -1049,6 +1374,14 @@ class C19(Prop):
         for key in ("defaults", "overrides"):
             for t2 in cc.shrink_tree(case["init"][key]):
                 yield dict(case, init=dict(case["init"], **{key: t2}))
+        for i in range(len(case.get("warm") or [])):
+            yield dict(case, warm=case["warm"][:i] + case["warm"][i + 1:])
+        for lb in shared_labels(case["script"]):
+            # the shared group shrunk in every place at once (one object: one content)
+            g = first_shared(case["script"], lb)
+            for sm in ns.shrink_spec(g):
+                if set(task_infos(g)) == set(task_infos(sm)):
+                    yield dict(case, script=map_shared(case["script"], lb, lambda _c, sm=sm: dict(sm, share=lb)))
         used = set(int(t) for t in case["bodies"]) | set(int(t) for t in case["hooks"]) | \
             set(p for h in case["hooks"].values() for p in h["pre"] + h["post"])
         for sp in ns.shrink_spec(case["script"]):
@@ -1067,6 +1400,15 @@ class C19(Prop):
             c2 = self._directed_back(rng, case)
             if c2 is not case:
                 yield self._finish(rng, c2)
+        # one of the tree's sub-collections added to a second parent, tasks through both mount points
+        for _ in range(15):
+            c2 = self._share_again(rng, case)
+            if c2 is not case:
+                yield self._finish(rng, c2)
+        for _ in range(10):
+            c2 = self._shared_case(rng)
+            if c2 is not None:
+                yield self._finish(rng, c2)
         # the bodies of the case as they are, the requested tasks once more after the others
         # (dedupe off, or a second execute()): whatever was deleted must stay deleted
         if len(case["requests"]) >= 2 and not case["hooks"]:
@@ -1075,6 +1417,64 @@ class C19(Prop):
             yield dict(case, requests=again, dedupe=False, split=0, init=dict(case["init"], overrides=ov))
             if case["dedupe"]:
                 yield dict(case, requests=again, split=len(case["requests"]))
+
+
+class _SharingBuilder(ns.Builder):
+    """a collection spec carrying "share": <label> is built ONCE per (label, content): every further
+    occurrence is the SAME Collection object, added to another parent (a reusable task group mounted
+    under several namespaces).  Occurrences whose content differs are different objects, as in the
+    model, where every occurrence is its own subtree."""
+
+    def __init__(self, *a, **k):
+        ns.Builder.__init__(self, *a, **k)
+        self.shared_colls = {}
+
+    def coll(self, spec, attach=None):
+        label = spec.get("share") if isinstance(spec, dict) else None
+        if label is None:
+            return ns.Builder.coll(self, spec, attach)
+        key = json.dumps([label, spec], sort_keys=True)
+        if key not in self.shared_colls:
+            self.shared_colls[key] = ns.Builder.coll(self, spec, None)
+        c = self.shared_colls[key]
+        if attach is not None:
+            attach(c)
+        return c
+
+
+def shared_labels(spec, out=None):
+    """label -> number of occurrences"""
+    out = {} if out is None else out
+    for it in spec.get("items", []):
+        if "coll" in it:
+            lb = it["coll"].get("share")
+            if lb is not None:
+                out[lb] = out.get(lb, 0) + 1
+            shared_labels(it["coll"], out)
+    return out
+
+
+def map_shared(spec, label, f):
+    """the script with f applied to every occurrence of the shared collection [label]"""
+    items = []
+    for it in spec.get("items", []):
+        if "coll" in it:
+            sub = it["coll"]
+            sub = f(sub) if sub.get("share") == label else map_shared(sub, label, f)
+            it = dict(it, coll=sub)
+        items.append(it)
+    return dict(spec, items=items)
+
+
+def first_shared(spec, label):
+    for it in spec.get("items", []):
+        if "coll" in it:
+            if it["coll"].get("share") == label:
+                return it["coll"]
+            r = first_shared(it["coll"], label)
+            if r is not None:
+                return r
+    return None
 
 
 class _NoArgs(dict):
